@@ -151,6 +151,13 @@ def stepSer (st : St) (cmd : List String) (got : String) : Option (St × Verdict
     match st.bm[x]? with
     | none => some (skipV st got)
     | some _ => some (st, expect "allerr" got)
+  | "rdfail" :: y :: _entry :: x :: cut :: _ =>
+    match st.bm[y]?, st.bm[x]?, cut.toNat? with
+    | some _, some _, some _ =>
+      -- the receiver is consumed; whether the cut lies inside the stream is decided by the executor ("skip" otherwise)
+      if got.startsWith "skip" then some (st, none)
+      else some ({ st with bm := st.bm.erase y }, expect "err ok" got)
+    | _, _, _ => some (skipV st got)
   | ["wrfailall", x] =>
     match st.bm[x]? with
     | none => some (skipV st got)
